@@ -244,7 +244,7 @@ def obligations(tier):
         o = c11.equation_ob(which, 2, 1, 2)
         o.name = o.name.replace("C11/", "C02/").replace("grid_entry_equals_pointwise", "ensures.grid_entry_is_documented_residual")
         obs.append(o)
-    for d in (1, 2, 3):
+    for d in (1, 2, 3, 4):
         obs.append(fisher(d, False))
         if tier == "thorough" or d == 2:
             obs.append(fisher(d, True))
